@@ -35,7 +35,7 @@ def post_merge(counters, extra):
 
 
 def plan(tier, seed):
-    n = 16 if tier == "quick" else 1500
+    n = 32 if tier == "quick" else 1500
     return [{"name": "s%d" % i, "seed": seed, "shard": i, "n_per_class": n, "solve_permuted": tier == "thorough",
              "n_attain": 16 if tier == "quick" else 400}
             for i in range(NSHARDS)]
@@ -81,6 +81,8 @@ def make_scenario(rng, cls):
     for i, e in enumerate(ev):
         e.append("r%d" % i)
     sc["events"] = ev
+    if rng.random() < 0.35:
+        sc["names"] = [rng.choice(["x", "x", "y", None]) for _ in range(npts)]
     if rng.random() < 0.3 and cls not in ("ConvexQGFunction", "RsiEbFunction"):
         sc["intermediate_solve_after"] = rng.randint(1, max(1, len(ev) - 1))
     return sc
@@ -136,7 +138,9 @@ def execute(sc, order):
         f.v = Point()
         label_new(b, "v")
     b = snapshot()
-    pts = [pep.set_initial_point() for _ in range(sc["n_points"])]
+    # labels are free-form: scenarios may give the same name to different points (sc["names"], fixed per scenario)
+    names = sc.get("names") or [None] * sc["n_points"]
+    pts = [pep.set_initial_point(name=names[i] if i < len(names) else None) for i in range(sc["n_points"])]
     label_new(b, "init")
     occ = {}
     mid = sc.get("intermediate_solve_after")
@@ -446,6 +450,9 @@ def run_shard(spec):
             for k in range(spec["n_per_class"]):
                 if (ci * 7 + k) % NSHARDS == spec["shard"] or spec["n_per_class"] * len(names) < NSHARDS:
                     todo.append((cls, "c04/%d/%s/%d/%d" % (spec["seed"], cls, spec["shard"], k)))
+            if ci % NSHARDS == spec["shard"]:
+                todo.append((cls, "c04/%d/%s/single" % (spec["seed"], cls)))
+                todo.append((cls, "c04/%d/%s/two" % (spec["seed"], cls)))
 
     def V(key, what, sc, order, sd):
         if len(viol) < 14 and not any(v["key"] == key and v["scenario"]["cls"] == sc["cls"] for v in viol):
@@ -454,6 +461,15 @@ def run_shard(spec):
     for cls, sd in todo:
         rng = random.Random(sd)
         sc = make_scenario(rng, cls) if "replay" not in spec else spec["replay"]["scenario"]
+        if "replay" not in spec and sd.endswith("/single"):
+            # boundary size: exactly one recorded sample and nothing else (single-sample guards are classic off-by-one sites)
+            sc["n_points"] = 1
+            sc["events"] = [["eval", 0, "r0"]]
+            sc.pop("intermediate_solve_after", None)
+        elif "replay" not in spec and sd.endswith("/two"):
+            sc["n_points"] = 2
+            sc["events"] = [["eval", 0, "r0"], ["eval", 1, "r1"]]
+            sc.pop("intermediate_solve_after", None)
         counters["scenarios"] += 1
         base_keys = None
         base_order = None
